@@ -20,6 +20,9 @@ pub fn signed_shift<'a>(term: &Term<'a>, cutoff: usize, amount: isize) -> Option
             if let Some(subterm) = { subterm.borrow().clone() } {
                 signed_shift(&unsigned_shift(&subterm, 0, *subterm_shift), cutoff, amount)
             } else if *subterm_shift >= cutoff {
+                #[cfg(feature = "verif")]
+                crate::verif_hooks::bump(crate::verif_hooks::SHIFT_HOLE);
+
                 // This `unwrap` is "virtually safe", unless the conversion overflows.
                 let new_shift = isize::try_from(*subterm_shift).unwrap() + amount;
 
@@ -205,6 +208,11 @@ pub fn open<'a>(
 ) -> Term<'a> {
     match &term_to_open.variant {
         Unifier(subterm, subterm_shift) => {
+            #[cfg(feature = "verif")]
+            if subterm.borrow().is_none() {
+                crate::verif_hooks::bump(crate::verif_hooks::OPEN_HOLE);
+            }
+
             // We `clone` the borrowed `subterm` to avoid holding the dynamic borrow for too long.
             { subterm.borrow().clone() }.map_or_else(
                 || Term {
